@@ -396,6 +396,11 @@ class StartupRun:
         snapshot: list[list[Any]] | None = None
         extra: dict[str, Any] = {}
         async with anyio.create_task_group() as ltg:      # hosts the harness's event listener
+            outer = None
+            if self.case.get("outer"):
+                # the context start_component() is called in is not the outermost one
+                outer = Context()
+                await outer.__aenter__()
             try:
                 async with Context() as ctx:
                     self.surrounding = ctx
@@ -458,6 +463,13 @@ class StartupRun:
             except BaseException as e:  # noqa: BLE001 - e.g. an exception surfacing from the root context
                 extra["root_exception"] = repr(e)
                 outcome = locals().get("outcome") or {"k": "other", "exc": repr(e)}
+            if outer is not None:
+                n_left = len(self.trace)
+                try:
+                    await outer.__aexit__(None, None, None)
+                except BaseException as e:  # noqa: BLE001
+                    extra.setdefault("root_exception", repr(e))
+                extra["after_left"] = [e["l"] for e in self.trace[n_left:]]
             ltg.cancel_scope.cancel()
         return {"trace": self.trace, "outcome": outcome, "snapshot": snapshot, **extra}
 
